@@ -1191,7 +1191,7 @@ func TestConcurrentReads(t *testing.T) {
 		ev.R.Broken("C19 must be built with -race (meta.d/C19.json: race=true)")
 	}
 	ev.SetChecks(ev.Scale(40, 1000))
-	rapid.Check(t, func(rt *rapid.T) {
+	ev.Check(t, func(rt *rapid.T) {
 		c := genCase(rt, false)
 		sub, detail, res := evaluate(c)
 		nt := overlapped(res)
@@ -1218,7 +1218,7 @@ func TestConcurrentReads(t *testing.T) {
 // TestSequentialImmutability: every operation kind x every input, alone; the inputs must equal their untouched twin after each call.
 func TestSequentialImmutability(t *testing.T) {
 	ev.SetChecks(ev.Scale(60, 3000))
-	rapid.Check(t, func(rt *rapid.T) {
+	ev.Check(t, func(rt *rapid.T) {
 		c := genCase(rt, true)
 		sub, detail, nops := sequentialCheck(c)
 		ev.R.Case(ir.Hash(c), true, "sequential")
